@@ -242,9 +242,18 @@ func (fv *FnV) addPending(st *State, kind, label string, props []string, goal, c
 	p.parts = append(p.parts, implies(st.pc, goal))
 }
 
+var splitPending bool
+
 func (fv *FnV) flushPending() {
 	for _, key := range fv.pendingOrder {
 		p := fv.pending[key]
+		if splitPending || (p.kind == "E" && fv.k != nil && fv.k.SplitReturns) {
+			for i, part := range p.parts {
+				o := fv.emit(nil, p.kind, fmt.Sprintf("%s@return%d", p.label, i+1), p.props, part, p.clause, p.pos)
+				o.ClauseRef = p.cl
+			}
+			continue
+		}
 		o := fv.emit(nil, p.kind, p.label, p.props, and(p.parts...), p.clause, p.pos)
 		o.ClauseRef = p.cl
 	}
